@@ -187,6 +187,26 @@ impl<'a> MslV<'a> {
         })
     }
 
+    /// the value of a value-initialised object (`T{}`, members of an aggregate left without an initialiser): zero
+    pub fn zero(&self, t: &MTy) -> Option<VV> {
+        let z = |k: MS| match k {
+            MS::Bool => Some(V::B(false)),
+            MS::Int => Some(V::I(0)),
+            MS::Uint => Some(V::U(0)),
+            MS::Float => Some(V::F(0)),
+            MS::Long | MS::LitInt => Some(V::L(0)),
+        };
+        Some(match t {
+            MTy::Void | MTy::Tag => return None,
+            MTy::S(k) => VV::S(z(*k)?),
+            MTy::Enum(k) => VV::S(z(self.enums.get(k)?.0)?),
+            MTy::V(k, n) => VV::V(vec![z(*k)?; *n]),
+            MTy::M(c, r) => VV::M(*r, *c, vec![V::F(0); r * c]),
+            MTy::Struct(k) => VV::St(self.structs.get(k)?.members.iter().map(|(_, mt)| self.zero(mt)).collect::<Option<Vec<_>>>()?),
+            MTy::Arr(e, n) => VV::Ar((0..*n).map(|_| self.zero(e)).collect::<Option<Vec<_>>>()?),
+        })
+    }
+
     /// numeric view: an unscoped enumeration acts as its underlying integer in arithmetic
     fn arith(&self, t: &MTy) -> Option<MTy> {
         match t {
